@@ -118,7 +118,8 @@ static int run_random(uint64_t seed, long n) {
         tr.deleted = true; ++ndeleted;
       }
     EncoderOptions eo = EncoderOptions::CreateDefaultOptions();
-    const int speed = r.range(0, 10);
+    // the forced hold-or-step track reaches the 2-byte / 3-byte boundary of the probability table (probability exactly 2^14) at the speeds whose table precision is 15 bits
+    const int speed = frames == 4096 ? 5 + (int)(i / 100) % 2 : r.range(0, 10);
     eo.SetSpeed(speed, speed);
     const bool builtin = !r.coin(1, 5);
     if (!builtin) eo.SetGlobalBool("use_built_in_attribute_compression", false);    // values stored with the smallest sufficient byte width instead of entropy coded
